@@ -416,6 +416,17 @@ def gen_tf(rng):
     return ['tf', 'Matrix', lin, [rng.choice([0., .5]) for _ in lin]]
 
 
+def _skeleton(spec):
+    '''The make-up of a spec: type tags with the leaf values erased; raw ndarrays never match (their == is element-wise).'''
+    if isinstance(spec, list):
+        if spec and spec[0] == 'nd':
+            return ['nd', id(spec)]
+        if spec and spec[0] in ('int', 'npint', 'float', 'bool', 'complex', 'str', 'bytes'):
+            return [spec[0]]
+        return [_skeleton(x) for x in spec]
+    return None if isinstance(spec, (int, float, bool)) else spec
+
+
 def _negzero_variant(spec):
     '''`spec` with its first float zero replaced by the negative zero (same type, equal for Python, another value), or None.'''
     if spec == ['float', 0.0] and str(spec[1]) == '0.0':
@@ -755,7 +766,9 @@ def run_history(case):
         elif kind == 'compare':
             # freshly built values compared with == (and used as dictionary keys) BEFORE anybody asked for their hash: looking at values must not change them
             si, sj = op[1] % len(pool), op[2] % len(pool)
-            if si not in refused and sj not in refused:
+            # only values of the same make-up are compared (twins that differ in a leaf): comparing, say, a numpy scalar with a tuple that holds
+            # an expression makes numpy try to turn the expression into an array, which has nothing to do with this property (and does not end)
+            if si not in refused and sj not in refused and _skeleton(pool[si]) == _skeleton(pool[sj]):
                 try:
                     x, y = build(pool[si], op[3] % nroutes(pool[si])), build(pool[sj], op[3] % nroutes(pool[sj]))
                     try:
